@@ -9,14 +9,14 @@ IOSET = "openat,read,write,rename,renameat,renameat2,unlink,unlinkat,rmdir,chmod
 def io_calls(log: bytes, root: str, tmpdir: str, names=IOSET):
     """the I/O system calls of a run after start-up, as (syscall name, ordinal among calls of that name) — strace counts `when=`
     per system call. Start-up = the dynamic loader: calls on absolute paths outside the scratch tree and the temp directory."""
-    ns = set(names.split(","))
+    ns = set(names.split(",")) if names else None
     rootb, tmpb = root.encode(), tmpdir.encode()
     per = {}
     out = []
     started = False
     for line in log.split(b"\n"):
         m = re.match(rb"^\d+\s+(\w+)\((.*)", line)
-        if not m or m.group(1).decode() not in ns:
+        if not m or (ns is not None and m.group(1).decode() not in ns) or m.group(1) in (b"execve", b"exit_group"):
             continue
         call, args = m.group(1).decode(), m.group(2)
         per[call] = per.get(call, 0) + 1
@@ -41,6 +41,7 @@ def baseline(cut, c):
     r = box.run(cut, c["tree"], c["argv"], stdin=c.get("stdin", b""), uid=c.get("uid", 0), strace={"trace": True}, keep=True)
     top = os.path.dirname(r.root)
     calls = io_calls(r.strace or b"", r.root, os.path.join(top, "tmp"))
+    r.all_calls = io_calls(r.strace or b"", r.root, os.path.join(top, "tmp"), names=None)
     nall = len([l for l in (r.strace or b"").split(b"\n") if re.match(rb"^\d+\s+\w+\(", l)])
     shutil.rmtree(top, ignore_errors=True)
     return r, calls, nall
